@@ -210,6 +210,67 @@ pub fn dump_manifest(entry: &Path, out: &mut Dump) {
         out.push(format!("manifest/packinfo[{i}]"), Leaf::Val(pack_info_str(info)));
     }
     out.push("manifest/check", check_leaf(m.check()));
+    manifest_extras("manifest", &m, out);
+    // the container pack itself: what it says about the packs it stores
+    out.push("file/pack_count", Leaf::Val(cp.pack_count().into_u64().to_string()));
+    for idx in 0..cp.pack_count().into_u64().min(64) as u16 {
+        let u = cp.get_pack_uuid(jbk::PackId::from(idx));
+        let by_idx = cp.get_pack_reader_from_idx(jbk::PackId::from(idx)).is_some();
+        let by_uuid = cp.get_pack_reader(&u).is_some();
+        out.push(format!("file/pack[{idx}]"), Leaf::Val(format!("uuid={u} by_idx={by_idx} by_uuid={by_uuid}")));
+    }
+    out.push("file/iter_count", Leaf::Val(cp.iter().count().to_string()));
+}
+
+/// What a manifest says beyond the pack descriptions: its own free data, and for every listed
+/// pack the check info and the free data it stores, by id and by uuid.
+fn manifest_extras(base: &str, m: &jbk::reader::ManifestPack, out: &mut Dump) {
+    out.push(format!("{base}/free"), Leaf::Val(format!("{:?}", &m.get_free_data()[..])));
+    let opt_bytes = |r: jbk::Result<Option<&[u8]>>| match r {
+        Ok(Some(b)) => Leaf::Val(format!("{b:?}")),
+        Ok(None) => Leaf::Absent,
+        Err(e) => Leaf::Err(err_class(&e)),
+    };
+    let mut infos: Vec<&jbk::reader::PackInfo> = vec![m.get_directory_pack_info()];
+    infos.extend(m.get_pack_infos().iter());
+    for (i, info) in infos.iter().enumerate().take(80) {
+        out.push(
+            format!("{base}/stored_check_info[{i}]"),
+            match m.get_pack_check_info(info.uuid) {
+                Ok(Some(ci)) => Leaf::Val(format!("{ci:?}")),
+                Ok(None) => Leaf::Absent,
+                Err(e) => Leaf::Err(err_class(&e)),
+            },
+        );
+        out.push(format!("{base}/pack_free_by_uuid[{i}]"), opt_bytes(m.get_pack_free_data_uuid(info.uuid)));
+        out.push(format!("{base}/pack_free_by_id[{i}]"), opt_bytes(m.get_pack_free_data(info.pack_id)));
+        if i > 0 {
+            out.push(
+                format!("{base}/info_by_uuid[{i}]"),
+                match m.get_content_pack_info_uuid(info.uuid) {
+                    Some(x) => Leaf::Val(pack_info_str(x)),
+                    None => Leaf::Absent,
+                },
+            );
+            out.push(
+                format!("{base}/info_by_id[{i}]"),
+                match m.get_content_pack_info(info.pack_id) {
+                    Some(x) => Leaf::Val(pack_info_str(x)),
+                    None => Leaf::Absent,
+                },
+            );
+        }
+    }
+    let nobody = uuid::Uuid::from_bytes([0xEE; 16]);
+    out.push(
+        format!("{base}/stored_check_info[unknown-uuid]"),
+        match m.get_pack_check_info(nobody) {
+            Ok(Some(ci)) => Leaf::Val(format!("{ci:?}")),
+            Ok(None) => Leaf::Absent,
+            Err(e) => Leaf::Err(err_class(&e)),
+        },
+    );
+    out.push(format!("{base}/pack_free_by_uuid[unknown-uuid]"), opt_bytes(m.get_pack_free_data_uuid(nobody)));
 }
 
 /// Full logical dump through `reader::Container`.
@@ -286,6 +347,18 @@ pub fn dump_opened(container: &jbk::reader::Container, spec: &DumpSpec, out: &mu
                 }
             }
         }
+    }
+    // the directory pack's own free data, and its indexes by position (the same objects as by name)
+    let dp = container.get_directory_pack();
+    out.push("dirpack/free", Leaf::Val(format!("{:?}", dp.get_free_data())));
+    for i in 0..spec.index_names.len().saturating_sub(1) {
+        out.push(
+            format!("dirpack/index_at[{i}]"),
+            match dp.get_index((i as u32).into()) {
+                Ok(ix) => Leaf::Val(format!("count={} store={}", ix.size().into_u64(), ix.get_store_id().into_u64())),
+                Err(e) => Leaf::Err(err_class(&e)),
+            },
+        );
     }
     // indexes and entries
     for name in &spec.index_names {
@@ -567,6 +640,7 @@ pub fn dump_direct(label: &str, bytes: &[u8], kind: u8, out: &mut Dump) {
                 for (i, info) in m.get_pack_infos().iter().enumerate() {
                     out.push(format!("{base}/packinfo[{i}]"), Leaf::Val(pack_info_str(info)));
                 }
+                manifest_extras(&base, &m, out);
             }
         },
         b'd' => match jbk::reader::DirectoryPack::new(reader) {
